@@ -9,6 +9,10 @@ from pysym.api import BoolDom, Cases, Harness, IntDom, StrDom, assume, concretiz
 
 NUMERIC = ["HH", "H", "hh", "h", "k", "kk", "K", "KK", "mm", "m", "ss", "s", "d", "dd", "M", "MM", "yyyy", "yy", "y",
            "DDD", "DD", "D", "S", "SS", "SSS", "SSSS", "SSSSS", "a", "F", "W", "ww"]
+NAMED = ["EEEE", "EEE", "MMMM", "MMM"]
+WEEKDAY_NAMES = ["Monday", "Tuesday", "Wednesday", "Thursday", "Friday", "Saturday", "Sunday"]
+MONTH_NAMES = ["January", "February", "March", "April", "May", "June", "July", "August", "September", "October",
+               "November", "December"]
 TIME_ONLY = ["HH", "H", "hh", "h", "k", "kk", "K", "KK", "mm", "m", "ss", "s", "S", "SS", "SSS", "SSSS", "SSSSS", "a"]
 DIM = [31, 28, 31, 30, 31, 30, 31, 31, 30, 31, 30, 31]
 
@@ -29,6 +33,21 @@ def h14a_directive(field, year, month, day, hour, minute, second, micro):
     text = _decode_date_format_field(field, value)
     if field == "a":
         assert text == ("am" if hour < 12 else "pm")
+        return
+    if field in NAMED:
+        # English names (the C locale numbers-parser formats in); weekday from the textbook day count
+        ym0 = year - 1
+        leap0 = year % 4 == 0 and (year % 100 != 0 or year % 400 == 0)
+        yday0 = sum(DIM[:month - 1]) + day + (1 if (leap0 and month > 2) else 0)
+        wd = (365 * ym0 + ym0 // 4 - ym0 // 100 + ym0 // 400 + yday0 - 1) % 7
+        if field == "MMMM":
+            assert text == MONTH_NAMES[month - 1]
+        elif field == "MMM":
+            assert text == MONTH_NAMES[month - 1][:3]
+        else:
+            for k in range(7):
+                if wd == k:
+                    assert text == (WEEKDAY_NAMES[k] if field == "EEEE" else WEEKDAY_NAMES[k][:3])
         return
     for ch in text:
         assert "0" <= ch <= "9"
@@ -266,10 +285,10 @@ def _scan(n):
 
 HARNESSES = [
     Harness("H14a", h14a_directive,
-            dict(field=Cases(NUMERIC), year=IntDom(), month=IntDom(), day=IntDom(), hour=IntDom(), minute=IntDom(), second=IntDom(),
+            dict(field=Cases(NUMERIC + NAMED), year=IntDom(), month=IntDom(), day=IntDom(), hour=IntDom(), minute=IntDom(), second=IntDom(),
                  micro=IntDom()),
             bounds="clock directives x all hours, minutes, seconds, microseconds; calendar directives x all valid dates of years 1000..9999 (symbolic)",
-            outside=["weekday/month names, G", "locale",
+            outside=["G", "locales other than C / English",
                      "years < 1000 (platform-dependent %Y padding)"],
             stubs=["datetime model: exact integer calendar arithmetic; strftime per the C standard in the C locale"]),
     _scan(0), _scan(1), _scan(2), _scan(3), _scan(4),
